@@ -176,6 +176,59 @@ fn rtype_tag(t: &RecordType) -> u64 {
     }
 }
 
+fn close_peers(case: &Value) -> Value {
+    use ant_networking::verif_hooks::NetworkSwarmCmd;
+    use ant_networking::Network;
+    let keypair = Keypair::ed25519_from_bytes(hexb(&case["self_seed"])).expect("32-byte seed");
+    let self_peer = PeerId::from(keypair.public());
+    let found: Vec<PeerId> = case["found"]
+        .as_array()
+        .expect("found")
+        .iter()
+        .map(|v| if v.as_str() == Some("self") { self_peer } else { peer(v) })
+        .collect();
+    let target = if case["a"]["t"].as_str() == Some("self") {
+        NetworkAddress::from_peer(self_peer)
+    } else {
+        addr(&case["a"]).0
+    };
+    let client = case["client"].as_bool().expect("client flag");
+    let rt = tokio::runtime::Builder::new_current_thread()
+        .enable_all()
+        .build()
+        .expect("runtime");
+    let res = rt.block_on(async {
+        let (network_cmd_sender, mut network_cmd_receiver) = tokio::sync::mpsc::channel(8);
+        let (local_cmd_sender, _local_cmd_receiver) = tokio::sync::mpsc::channel(8);
+        let network = Network::new(network_cmd_sender, local_cmd_sender, self_peer, keypair);
+        let answer = found.clone();
+        let _responder = tokio::spawn(async move {
+            let _keep = _local_cmd_receiver;
+            while let Some(cmd) = network_cmd_receiver.recv().await {
+                if let NetworkSwarmCmd::GetClosestPeersToAddressFromNetwork { sender, .. } = cmd {
+                    let _ = sender.send(answer.clone());
+                }
+            }
+        });
+        if client {
+            network.client_get_all_close_peers_in_range_or_close_group(&target).await
+        } else {
+            network.node_get_closest_peers(&target).await
+        }
+    });
+    let mut out = match res {
+        Ok(l) => json!({"code": 0, "l": peers_out(&l)}),
+        Err(NetworkError::NotEnoughPeers { found, required }) => {
+            json!({"code": 1, "found": found, "required": required})
+        }
+        Err(e) => json!({"code": 9, "err": format!("{e:?}")}),
+    };
+    out["self"] = json!(hex::encode(self_peer.to_bytes()));
+    out["found_peers"] = json!(peers_out(&found));
+    out["abytes"] = json!(hex::encode(target.as_bytes()));
+    out
+}
+
 fn fetch_sched(case: &Value) -> Value {
     use ant_networking::verif_hooks::replication_fetcher::Fetcher;
     let rt = tokio::runtime::Builder::new_current_thread()
@@ -375,6 +428,10 @@ fn run(case: &Value) -> Value {
         // a scheduling history of one ReplicationFetcher: adverts from several holders, completions,
         // plain scheduling calls; both maps are dumped before and after every step
         "fetch_sched" => fetch_sched(case),
+        // Network::get_all_close_peers_in_range_or_close_group, client and node path: a real `Network`
+        // handle whose swarm side answers the closest-peers query with the given list ("self" entries
+        // stand for the handle's own peer id)
+        "close_peers" => close_peers(case),
         "store_count" => {
             let dir = std::env::temp_dir().join(format!(
                 "verif-c11-store-{}-{}",
